@@ -273,7 +273,7 @@ class SimDevice:
             self.ev("pin_byte", idx, apdu[3])
             return apdu[:3]
         if cmd == 0x45:
-            return bytes([CLA, cmd, self.retries & 0xff])
+            return bytes([CLA, cmd, self.retries & 0xff]) + self.cfg.get("retries_tail", b"")
         if cmd == 0xFE:      # unlock
             candidate = bytes(self.pinbuf).split(b"\x00")[0]
             self.ev("unlock", candidate)
@@ -365,7 +365,7 @@ class SimDevice:
         if cmd in (0xA2, 0xA3, 0xA5) and not self.onboarded:
             raise SW(0x6BEE)
         if cmd == 0xA2:
-            return bytes([CLA, cmd, self.retries & 0xff])
+            return bytes([CLA, cmd, self.retries & 0xff]) + self.cfg.get("retries_tail", b"")
         if cmd == 0xA3:
             candidate = apdu[3:]
             self.ev("sgx_unlock", candidate)
